@@ -2,6 +2,7 @@ package rules
 
 import (
 	"go/token"
+	"go/types"
 	"net/url"
 	"strings"
 
@@ -586,6 +587,40 @@ func (c *Ctx) taintedSessionKeys() map[string]bool {
 // redirectOptField returns every value stored into the named field of the
 // RedirectOptions passed to a Redirect call.
 func redirectOptField(opts ssa.Value, field string) ([]ssa.Value, bool) {
+	return redirectOptFieldD(opts, field, 0)
+}
+
+func redirectOptFieldD(opts ssa.Value, field string, depth int) ([]ssa.Value, bool) {
+	// the options handed back by a callback the middleware was built with
+	// (`ro := redirect()`): read in every closure bound to that callback
+	if call, isCall := opts.(*ssa.Call); isCall && depth < 3 && !call.Call.IsInvoke() {
+		fns := boundFuncs(call.Call.Value, 0)
+		if len(fns) == 0 {
+			return nil, false
+		}
+		var all []ssa.Value
+		for _, g := range fns {
+			found := false
+			for _, b := range g.Blocks {
+				for _, in := range b.Instrs {
+					ret, ok := in.(*ssa.Return)
+					if !ok || len(ret.Results) != 1 {
+						continue
+					}
+					vs, ok := redirectOptFieldD(ret.Results[0], field, depth+1)
+					if !ok {
+						return nil, false
+					}
+					found = true
+					all = append(all, vs...)
+				}
+			}
+			if !found {
+				return nil, false
+			}
+		}
+		return all, true
+	}
 	u, ok := opts.(*ssa.UnOp)
 	if !ok {
 		return nil, false
@@ -978,4 +1013,170 @@ func quoteList(ss []string) string {
 		out = append(out, strings.NewReplacer("\t", "\\t", "\n", "\\n").Replace("‹"+s+"›"))
 	}
 	return strings.Join(out, " ")
+}
+
+// boundFuncs resolves a function value that is a free variable of a closure
+// (or a load of such a captured cell) to the functions bound to it at every
+// place the closure is made; nil when some binding is not a function literal
+// or named function.
+func boundFuncs(v ssa.Value, d int) []*ssa.Function {
+	if d > 4 || v == nil {
+		return nil
+	}
+	switch x := v.(type) {
+	case *ssa.Function:
+		return []*ssa.Function{x}
+	case *ssa.MakeClosure:
+		if f, ok := x.Fn.(*ssa.Function); ok {
+			return []*ssa.Function{f}
+		}
+	case *ssa.ChangeType:
+		return boundFuncs(x.X, d+1)
+	case *ssa.UnOp:
+		// a captured variable: the closure holds the cell, the cell holds the function
+		if fv, ok := x.X.(*ssa.FreeVar); ok {
+			var out []*ssa.Function
+			cells, ok := cellsOf(fv, 0)
+			if !ok || len(cells) == 0 {
+				return nil
+			}
+			for _, a := range cells {
+				if a.Referrers() == nil {
+					return nil
+				}
+				n := 0
+				for _, ref := range *a.Referrers() {
+					if st, ok := ref.(*ssa.Store); ok && st.Addr == ssa.Value(a) {
+						fs := boundFuncs(st.Val, d+1)
+						if fs == nil {
+							return nil
+						}
+						out = append(out, fs...)
+						n++
+					}
+				}
+				if n == 0 {
+					return nil
+				}
+			}
+			return out
+		}
+	case *ssa.FreeVar:
+		var out []*ssa.Function
+		bs := bindingsOf(x)
+		if len(bs) == 0 {
+			return nil
+		}
+		for _, bound := range bs {
+			fs := boundFuncs(bound, d+1)
+			if fs == nil {
+				return nil
+			}
+			out = append(out, fs...)
+		}
+		return out
+	}
+	return nil
+}
+
+// bindingsOf lists what is bound to free variable fv wherever its closure is made.
+func bindingsOf(fv *ssa.FreeVar) []ssa.Value {
+	f := fv.Parent()
+	idx := -1
+	for i, x := range f.FreeVars {
+		if x == fv {
+			idx = i
+		}
+	}
+	if idx < 0 {
+		return nil
+	}
+	var out []ssa.Value
+	var scan func(g *ssa.Function)
+	seen := map[*ssa.Function]bool{}
+	scan = func(g *ssa.Function) {
+		if g == nil || seen[g] {
+			return
+		}
+		seen[g] = true
+		for _, b := range g.Blocks {
+			for _, in := range b.Instrs {
+				if mc, ok := in.(*ssa.MakeClosure); ok && mc.Fn == ssa.Value(f) && idx < len(mc.Bindings) {
+					out = append(out, mc.Bindings[idx])
+				}
+			}
+		}
+		if liveFuncs == nil {
+			for _, a := range g.AnonFuncs {
+				scan(a)
+			}
+		}
+	}
+	// the closure is made in its lexical parent — or wherever that parent was inlined
+	for _, g := range allFuncsOf(f.Prog) {
+		scan(g)
+	}
+	return out
+}
+
+var allFuncsCache = map[*ssa.Program][]*ssa.Function{}
+
+// liveFuncs, when set, lists the functions that are part of the analysed
+// program after normalisation (helpers that were inlined everywhere are gone).
+var liveFuncs []*ssa.Function
+
+func allFuncsOf(prog *ssa.Program) []*ssa.Function {
+	if liveFuncs != nil {
+		return liveFuncs
+	}
+	if fs, ok := allFuncsCache[prog]; ok {
+		return fs
+	}
+	var fs []*ssa.Function
+	for _, pkg := range prog.AllPackages() {
+		if !strings.Contains(pkg.Pkg.Path(), "volatiletech/authboss") {
+			continue
+		}
+		for _, m := range pkg.Members {
+			switch x := m.(type) {
+			case *ssa.Function:
+				fs = append(fs, x)
+			case *ssa.Type:
+				for _, t := range []types.Type{x.Type(), types.NewPointer(x.Type())} {
+					ms := prog.MethodSets.MethodSet(t)
+					for i := 0; i < ms.Len(); i++ {
+						if mf := prog.MethodValue(ms.At(i)); mf != nil {
+							fs = append(fs, mf)
+						}
+					}
+				}
+			}
+		}
+	}
+	allFuncsCache[prog] = fs
+	return fs
+}
+
+// cellsOf: the local cells a captured variable can be, following the capture
+// through enclosing closures to where the variable lives.
+func cellsOf(fv *ssa.FreeVar, d int) ([]*ssa.Alloc, bool) {
+	if d > 4 {
+		return nil, false
+	}
+	var out []*ssa.Alloc
+	for _, bound := range bindingsOf(fv) {
+		switch x := bound.(type) {
+		case *ssa.Alloc:
+			out = append(out, x)
+		case *ssa.FreeVar:
+			cs, ok := cellsOf(x, d+1)
+			if !ok {
+				return nil, false
+			}
+			out = append(out, cs...)
+		default:
+			return nil, false
+		}
+	}
+	return out, true
 }
